@@ -117,6 +117,12 @@ RetrievableT == AtRest => Retrievable(T, O)
 LookupT == AtRest => LookupIffCanonical(T, O, alltx)
 HeadsKnownT == AtRest => O.head \in DOMAIN T.num /\ O.hhead \in DOMAIN T.num
 
+\* header-first import: a batch containing a header that breaks a consensus rule fails, and that header is not stored - whatever part of
+\* the batch the node already had (C13: batch verification reports what one-by-one verification reports)
+HeaderCorruptRejectedT ==
+  (kind = "op" /\ lastop.op = "headers" /\ \E k \in 1..Len(lastop.blocks) : ~valid[lastop.blocks[k]])
+     => (lastop.err # "" /\ \A k \in 1..Len(lastop.blocks) : ~valid[lastop.blocks[k]] => lastop.blocks[k] \notin O.hasHeader)
+
 \* building a valid chain with the node's own block builder (GenerateChain / ApplyTransaction / StateDB.Commit) must not crash
 GeneratorOKT == kind # "genfail"
 
